@@ -1,8 +1,11 @@
-(** * C15 — What the API reports agrees with what the runner does  (partial: the task-order clause is checked by the
-    correspondence run and its monitor; its Coq statement over the Kahn model is not proved yet) *)
+(** * C15 — What the API reports agrees with what the runner does
+    The task-order clause: the task list of a new job is a function of the definition alone and, for a valid acyclic
+    definition, lists every task after the tasks it depends on (C15_task_order, from proofs/KahnProps.v); the list is part of
+    the immutable snapshot (C15_reported_until_removed). The HTTP layer (jobToResult, the handlers) is not modelled: it is
+    compared with the runner state at every step of every executed history. *)
 From stdpp Require Import list.
 From Coq Require Import ZArith.
-From PV Require Import Runner proofs.SystemProps.
+From PV Require Import Graph System Runner proofs.SystemProps proofs.BuildProps proofs.KahnProps proofs.ProgressProps.
 Local Open Scope Z_scope.
 
 (** outside shutdown a defined pipeline is listed as schedulable iff an immediate request is accepted *)
@@ -30,6 +33,14 @@ Theorem C15_time_order : ∀ s id j t,
   reach s → get_job s id = Some j → j_start j = Some t → j_created j + Z.of_nat (j_delay j) <= t ∧ t <= st_now s.
 Proof. exact sys_start_after_delay. Qed.
 
+(** the task list of an accepted job depends only on the definition, and for a valid acyclic definition every task is
+    listed after the tasks it depends on *)
+Theorem C15_task_order : ∀ s p d v u,
+  job_graph (new_job s p d v u) = sort_tasks (pd_tasks d) ∧
+  (NoDup (map fst (pd_tasks d)) → deps_closed (pd_tasks d) → acyclic (pd_tasks d) → topo (job_graph (new_job s p d v u))).
+Proof. exact new_job_task_order. Qed.
+
+Print Assumptions C15_task_order.
 Print Assumptions C15_schedulable_iff_accepted.
 Print Assumptions C15_running_flag.
 Print Assumptions C15_reported_until_removed.
